@@ -84,7 +84,8 @@ def stamp_languages(ctx, report, folder):
     ints = [n for n in walk_no_nested(sw.node) if isinstance(n, ast.Assign) and src(n.targets[0]) in ("time", "self.last_time")]
     ok = len(ints) == 2 and all(isinstance(n.value, ast.Call) and call_name(n.value) == "int" for n in ints)
     sr = ctx.index.get_function("pycaption/sami.py", "SAMIReader._translate_lang")
-    ok2 = "int(float(start_str))" in src(sr.node)
+    from ..core.astutil import closure_src
+    ok2 = re.search(r"int\(float\(\w+\)\)", closure_src(ctx.index, sr)) is not None
     report.check(ok and ok2, "R-LANG-INCL", sw, "SAMI sync times are written as integers and read back as numbers", None, "1")
 
 
@@ -119,11 +120,8 @@ def inverse_tables(ctx, report, folder):
     _relabel(report, start, "3")
     enc = ctx.index.get_function("pycaption/webvtt.py", "WebVTTWriter._encode_illegal_characters")
     from ..spec import hazards as H
-    steps = []
-    for n in walk_no_nested(enc.node):
-        if isinstance(n, ast.Call) and isinstance(n.func, ast.Attribute) and n.func.attr == "replace" and len(n.args) == 2 \
-                and all(isinstance(a, ast.Constant) for a in n.args):
-            steps.append(f"replace:{n.args[0].value}→{n.args[1].value}")
+    from ..engines.strsteps import replace_steps
+    steps = [f"replace:{a}→{b}" for k, a, b, _ in replace_steps(enc, folder, "WebVTT encoder") if k == "replace"]
     covered, amp, problems = H.coverage(tuple(steps))
     need = H.CONTEXT_HAZARDS["webvtt-cue-text"]
     report.check(need <= covered and amp == 1 and not problems, "R-ESCAPE-TABLE", enc,
